@@ -378,10 +378,10 @@ theorem reach_find {l : Layer} {id s : Id} (h : ReachPlus (rl l) id s) : ∃ f, 
 (`OW.independent`), the by-ID union (after the repair) returns exactly the referrers within the
 shadowed feature set, of the requested types, and every returned feature is the current version. -/
 theorem union_refs (w : OW) (hind : w.independent = true) (id : Id) (typed : List Nat) (R : List Feat)
-    (h : w.findRefs id typed = some R) :
+    (h : w.findRefsUnion id typed = some R) :
     (∀ s, (∃ f ∈ R, f.id = s) ↔ (ReachPlus (rl w.merged) id s ∧ typeOk typed s = true)) ∧
     (∀ f ∈ R, f ∈ w.merged) := by
-  unfold OW.findRefs at h
+  unfold OW.findRefsUnion at h
   cases hb : w.base.findRefs id typed with
   | none => simp [hb] at h
   | some B =>
